@@ -2391,7 +2391,9 @@ def check_session(sess, seed, key_prefix="session:"):
         if fs:
             f = fs[0]
             alone = "" if j == 0 else " (source %d of a session: %s of the model compiled first)" % (j + 1, what)
-            out.append(Failure((key_prefix if j > 0 else "") + f.key, f.what + alone, _session_input(sess, j, seed, f),
+            # a later model that has the text of an earlier one and other callables for the user functions: own key
+            pre = "" if j == 0 else (key_prefix + "functions:" if what == "other-functions" else key_prefix)
+            out.append(Failure(pre + f.key, f.what + alone, _session_input(sess, j, seed, f),
                                f.observed, f.required, SESSION_REPRO))
             return out
     if len(alive) != len(sess):
